@@ -78,6 +78,7 @@ type Ctx struct {
 	Stats      map[string]int64 // fault kinds fired, probes, counters
 	Steps      int64            // logical steps ("simulated time")
 	Nontrivial bool             // by the engine's stated rule
+	Sig        uint64           // optional: signature of the interleaving/state sequence reached (0 = none)
 	keepLog    bool
 }
 
@@ -424,6 +425,7 @@ type shardResult struct {
 	Steps       int64            `json:"steps"`
 	Stats       map[string]int64 `json:"stats"`
 	Hashes      []uint64         `json:"-"` // distinct non-trivial plan hashes
+	Sigs        []uint64         `json:"-"` // distinct interleaving signatures
 	HashCapped  bool             `json:"hash_capped"`
 	Samples     []sample         `json:"samples"`
 	First       *rawViolation    `json:"first_violation,omitempty"` // the worker stops at its first violation
@@ -456,6 +458,7 @@ const hashCap = 3_000_000
 func runShard(e Engine, tier string, seed uint64, k, n, total int, deadline time.Time) *shardResult {
 	res := &shardResult{Stats: map[string]int64{}, KnownHits: map[string]int64{}}
 	seen := map[uint64]struct{}{}
+	sigs := map[uint64]struct{}{}
 	known := loadKnown()
 	for i := k; i < total; i += n {
 		if i%64 == k%64 && time.Now().After(deadline) {
@@ -480,6 +483,9 @@ func runShard(e Engine, tier string, seed uint64, k, n, total int, deadline time
 				res.HashCapped = true
 			}
 		}
+		if c.Sig != 0 && len(sigs) < hashCap {
+			sigs[c.Sig] = struct{}{}
+		}
 		if keep {
 			res.Samples = append(res.Samples, sample{Run: run, Plan: planJSON(plan), Log: c.Log})
 		}
@@ -498,6 +504,9 @@ func runShard(e Engine, tier string, seed uint64, k, n, total int, deadline time
 	for h := range seen {
 		res.Hashes = append(res.Hashes, h)
 	}
+	for h := range sigs {
+		res.Sigs = append(res.Sigs, h)
+	}
 	return res
 }
 
@@ -513,6 +522,13 @@ func writePartial(path string, r *shardResult) {
 	if err := os.WriteFile(path+".hashes", hb, 0o644); err != nil {
 		fatal2("%v", err)
 	}
+	sb := make([]byte, 8*len(r.Sigs))
+	for i, h := range r.Sigs {
+		binary.LittleEndian.PutUint64(sb[8*i:], h)
+	}
+	if err := os.WriteFile(path+".sigs", sb, 0o644); err != nil {
+		fatal2("%v", err)
+	}
 }
 func readPartial(path string) *shardResult {
 	b, err := os.ReadFile(path)
@@ -526,6 +542,10 @@ func readPartial(path string) *shardResult {
 	hb, _ := os.ReadFile(path + ".hashes")
 	for i := 0; i+8 <= len(hb); i += 8 {
 		r.Hashes = append(r.Hashes, binary.LittleEndian.Uint64(hb[i:]))
+	}
+	sb, _ := os.ReadFile(path + ".sigs")
+	for i := 0; i+8 <= len(sb); i += 8 {
+		r.Sigs = append(r.Sigs, binary.LittleEndian.Uint64(sb[i:]))
 	}
 	return &r
 }
@@ -578,6 +598,7 @@ func runCheck(e Engine, tier string, seed uint64, workers int, runsOverride int,
 	m := &shardResult{Stats: map[string]int64{}, KnownHits: map[string]int64{}}
 	var raws []rawViolation
 	distinct := map[uint64]struct{}{}
+	distinctSigs := map[uint64]struct{}{}
 	for _, p := range parts {
 		m.Runs += p.Runs
 		m.Nontrivial += p.Nontrivial
@@ -592,6 +613,9 @@ func runCheck(e Engine, tier string, seed uint64, workers int, runsOverride int,
 		}
 		for _, h := range p.Hashes {
 			distinct[h] = struct{}{}
+		}
+		for _, h := range p.Sigs {
+			distinctSigs[h] = struct{}{}
 		}
 		if len(m.Samples) < 3 {
 			m.Samples = append(m.Samples, p.Samples...)
@@ -660,7 +684,7 @@ func runCheck(e Engine, tier string, seed uint64, workers int, runsOverride int,
 	}
 	sort.Slice(confirmed, func(i, j int) bool { return confirmed[i].Run < confirmed[j].Run })
 	wallS := time.Since(start).Seconds()
-	writeEvidence(e, tier, seed, m, len(distinct), wallS, confirmed, unreached, workers)
+	writeEvidence(e, tier, seed, m, len(distinct), len(distinctSigs), wallS, confirmed, unreached, workers)
 	var kh []string
 	for k := range m.KnownHits {
 		kh = append(kh, k)
@@ -691,7 +715,7 @@ func scratchBase() string {
 
 // ---------------------------------------------------------------- evidence
 
-func writeEvidence(e Engine, tier string, seed uint64, m *shardResult, distinct int, wallS float64, vs []foundViolation, unreached []string, workers int) {
+func writeEvidence(e Engine, tier string, seed uint64, m *shardResult, distinct, distinctSigs int, wallS float64, vs []foundViolation, unreached []string, workers int) {
 	faults := map[string]int64{}
 	for _, k := range e.FaultKinds() {
 		faults[k] = m.Stats[k]
@@ -727,6 +751,18 @@ func writeEvidence(e Engine, tier string, seed uint64, m *shardResult, distinct 
 		"stopped_on_wall_clock_cap": m.StoppedWall,
 		"unreached":                 unreached,
 		"known_finding_hits":        m.KnownHits,
+	}
+	if f := os.Getenv("VERIF_EXTRA_EVIDENCE"); f != "" {
+		if b, err := os.ReadFile(f); err == nil {
+			var x any
+			if json.Unmarshal(b, &x) == nil {
+				cov["companions"] = x
+			}
+		}
+	}
+	if distinctSigs > 0 {
+		cov["distinct_interleavings"] = distinctSigs
+		cov["distinct_interleavings_measure"] = "distinct hashes of the sequence of (task, yield label) pairs at context switches plus the order of operation invocations/returns"
 	}
 	ev := map[string]any{
 		"property_id": e.ID(),
